@@ -14,9 +14,9 @@ import (
 
 func init() {
 	register(&Check{ID: "C20", Run: runC20, Configs: []load.Config{{Tags: "unsafe"}}, Expl: oblig.Explanation{
-		Text: "Wire-length taint analysis over the reflective protocol stack (package protocol and its sub-packages). Sources: every value returned by the decoder's fixed-width and varint readers and by encoding/binary on received bytes. Taint propagates through conversions, ±constant arithmetic, phis, local variables, struct fields and, interprocedurally, parameters. Sinks: make() length/capacity, reflect.MakeSlice counts, slice-expression bounds, stores into a decoder's `remain`, and loops whose trip count is a wire value with no exit on the decoder state. A sink is discharged only if on every path to it the value is proven non-negative (sign guards, unsigned provenance, caller guards at every call site) and bounded above (comparison with the decoder's remaining bytes, a length or a constant; 16-bit provenance), or if it is dominated by a verified checksum. Unsigned→signed conversions lose the lower bound unless an upper bound was established first. Not decided: proportionality of allocation to bytes actually received when the frame size itself lies (recorded as a known finding), panics not driven by lengths.",
-		Rule: "one obligation per (function, sink kind, taint source); non-trivial = tainted sink reached by the propagation",
-		Trusted: []string{"go/ssa", "taint propagation and bound inference (internal/an/taint.go)", "bound expressions: decoder.remain, len(x), constants"},
+		Text:        "Wire-length taint analysis over the reflective protocol stack (package protocol and its sub-packages). Sources: every value returned by the decoder's fixed-width and varint readers and by encoding/binary on received bytes. Taint propagates through conversions, ±constant arithmetic, phis, local variables, struct fields and, interprocedurally, parameters. Sinks: make() length/capacity, reflect.MakeSlice counts, slice-expression bounds, stores into a decoder's `remain`, and loops whose trip count is a wire value with no exit on the decoder state. A sink is discharged only if on every path to it the value is proven non-negative (sign guards, unsigned provenance, caller guards at every call site) and bounded above (comparison with the decoder's remaining bytes, a length or a constant; 16-bit provenance), or if it is dominated by a verified checksum. Unsigned→signed conversions lose the lower bound unless an upper bound was established first. Not decided: proportionality of allocation to bytes actually received when the frame size itself lies (recorded as a known finding), panics not driven by lengths.",
+		Rule:        "one obligation per (function, sink kind, taint source); non-trivial = tainted sink reached by the propagation",
+		Trusted:     []string{"go/ssa", "taint propagation and bound inference (internal/an/taint.go)", "bound expressions: decoder.remain, len(x), constants"},
 		Assumptions: []string{"every array element occupies at least one byte on the wire (C04.R2), so a count bounded by the remaining bytes is a valid bound", "fields protected by a verified CRC are outside the property's quantifier"},
 	}})
 }
@@ -44,10 +44,10 @@ func runC20(p *load.Program, r *oblig.Report) {
 				}
 				return "", false
 			}
-			if f := c.Call.StaticCallee(); f != nil && f.Pkg != nil && f.Pkg.Pkg.Path() == "encoding/binary" && strings.HasPrefix(f.Name(), "Uint") {
+			if f := c.Call.StaticCallee(); f != nil && f.Pkg != nil && f.Pkg.Pkg.Path() == "encoding/binary" && strings.HasPrefix(an.RefFuncName(f), "Uint") {
 				fn := c.Parent()
-				if fn != nil && inScope(fn) && strings.Contains(strings.ToLower(fn.Name()), "read") {
-					return "binary." + f.Name(), true
+				if fn != nil && inScope(fn) && strings.Contains(strings.ToLower(an.RefFuncName(fn)), "read") {
+					return "binary." + an.RefFuncName(f), true
 				}
 			}
 			return "", false
@@ -99,13 +99,13 @@ func runC20(p *load.Program, r *oblig.Report) {
 		r.Check(s.Lo || crcOK, rule, construct+" | non-negative", pos, "wire-derived length proven >= 0 on every path to this "+s.Kind, "no guard proves the value non-negative", facts...)
 		r.Check(s.Hi || crcOK, rule, construct+" | bounded above", pos, "wire-derived length bounded by the remaining bytes, a length or a constant on every path to this "+s.Kind, "no guard bounds the value by the remaining bytes, a length or a constant", facts...)
 	}
-	r.RequireCount(rule, len(sinks), 12)
+	r.RequireCount(rule, len(sinks), 9)
 }
 
 // crcCovered: the sink is dominated by the match edge of a checksum comparison in the same function.
 func crcCovered(p *load.Program, s an.TaintSink) (string, bool) {
 	fn := s.Fn
-	for _, b := range fn.Blocks {
+	for _, b := range an.Blocks(fn) {
 		_, ci := an.IfCond(b)
 		if ci == nil || ci.Op != token.NEQ {
 			continue
